@@ -49,6 +49,21 @@ CHECKS = {
  "C14": dict(cat="exploration", tech="exhaustive enumeration of case variants and single-edit mutants of all names; round trip of every policy of bounded scopes through three renderings and the real config loader, compared by compiled program",
    text="All 2^letters ASCII case variants of the 15 names parse to the exact constant; all single-edit mutants over a 34-symbol alphabet (incl. NUL and Unicode look-alikes), concatenations and look-alikes are rejected (three-valued under Unicode folding); printed forms parse back. Every policy of S1 (<=2 groups), S3-small and S2 (8 ops x 6 indices x 45 operands x named actions) is rendered by an independent emitter, yaml.Marshal and json.Marshal, read back via ucfg/yaml + Unpack as cmd/sandbox does, and must compile to the identical program.",
    note="Trusted: ucfg/yaml and yaml.v2 as dependencies on the documented path; arbitrary strings are represented by the edit-distance-1 neighbourhood and a look-alike list.", ref="DESIGN.md C14"),
+ "C13": dict(cat="model_checking", tech="stateless model checking of the real code: cooperative scheduler + iterative-context-bounding DFS over auto-instrumented sources (go build -overlay); sequential history enumeration; separate free-running -race pass",
+   text="The current library sources are rewritten with a scheduling point before every statement and run under a hand-written cooperative scheduler; for 8 scenarios (copies sharing backing arrays, two architectures, Assemble||Dump, Assemble||GetInfo, Assemble||text conversions, same value twice, three threads) every schedule within the preemption bound (1; 2 for the small shared-copies scenario; thorough: 2 for all two-thread scenarios) is executed; each call must return its solo result and every input policy incl. spare slice capacity must be bit-identical; reported schedules are replayed twice in a fresh process. Plus all 1554 operation histories of length <=4, text forms over 512 calls in 8/32 fresh processes, and a free-running -race pass of the same bodies.",
+   note="Limits: statement-granularity points; preemption bound 2; map iteration order covered by repetition only; the -race pass covers unsynchronised accesses the cooperative scheduler cannot see.", ref="DESIGN.md C13"),
+ "C15": dict(cat="fault_enumeration", tech="enumeration of every failure point before exec realised through inputs (file prefixes, defect kinds, kernel refusals) on the real sandbox binary with a marker-writing probe target",
+   text="The built cmd/sandbox runs a probe target (appends a marker first, then issues every partition-cell probe) on 4 base policy files whole (root/uid 65534/-no-new-privs=false/bad target), every line prefix, every byte prefix inside first and last rule (thorough: all), 13 defect kinds per base, an oversize policy, missing file, directory. The same bytes go through ucfg in the harness: if that fails / policy invalid / kernel must refuse => exit non-zero and no marker; else marker exists and the target's observations equal the reference decisions of the policy the file denotes.",
+   note="Fault points are realised through inputs and kernel refusals, not by interrupting the sandbox process.", ref="DESIGN.md C15"),
+ "C16": dict(cat="exploration", tech="bounded-exhaustive enumeration of all texts over a line alphabet against an independent site-model parser; strace read-fault enumeration",
+   text="All texts of <=4 (quick) / <=5 (thorough) lines over a 19-shape alphabet (4 marker kinds incl. bare TEXT, raw syscall with/without fields, loads into AX/BP/stack, negative/unparsable/unknown numbers, XOR idiom, calls with/without fields, neutral, empty, 70000-byte line) for both parsers with/without trailing newline: no panic, same (number,name,caller,location) list as an independent site-model parser, names from oracle tables, monotone under appended functions, error whenever the text cannot be read to the end; plus generated multi-function listings and an EIO injected at every read call of three listings, a directory and a missing file.",
+   note="Trusted: the site model (nearest preceding load in the same function after the previous site). Alphabet-bounded, not all strings.", ref="DESIGN.md C16"),
+ "C17": dict(cat="fault_enumeration", tech="crash/fault-point enumeration over run histories of the real profiler binary with a fake disassembler and strace write-fault injection",
+   text="Histories run(fault)[;run(fault')];run(normal): disassembler stops after p bytes and exits 1 or is killed (every line boundary, every byte of selected lines, around every 4096-byte flush of a 20 kB listing; thorough: every byte), tool missing, SIGKILL or ENOSPC at the N-th write to the cache file, depth-2 sequences; the final normal run must print exactly the cold-cache profile or fail, and a reused cache must equal the complete one; a different binary at the same path must not reuse the cache.",
+   note="Crash points at write-syscall granularity and byte prefixes of the content; kernel-level torn writes are not modelled.", ref="DESIGN.md C17"),
+ "C18": dict(cat="exploration", tech="exhaustive enumeration of discovered-multiset x blacklist x allow x spelling x format x arch on the real profiler binary, set-algebra oracle, emitted YAML compiled and run on the exact partition",
+   text="For every sub-multiset of a 6-site universe (incl. duplicate sites, an unknown number, the XOR idiom) x blacklist subsets x allow subsets (incl. an i386-only name and bogus names) x flag spellings x {config, code} x {amd64, 386} (quick: rotating selection; thorough: full product) the emitted list must equal sort(dedup((found∩table)−B) ∪ (A∩table)); the YAML must load through ucfg and compile to a filter that allows exactly those numbers and answers errno otherwise on every partition cell.",
+   note="Trusted: set algebra of the statement for disjoint flag sets; fake go tool stands for the disassembler.", ref="DESIGN.md C18"),
 }
 
 ALL = ["C%02d" % i for i in range(1, 20)]
